@@ -1,11 +1,81 @@
-(* Props/C07.v — property C07: validation is total.  Statements only.  (work in progress: reader level) *)
-From Coq Require Import String.
-From PX.Lib Require Import Base PyStr.
-From PX.Model Require Import Path Segment Raw Reader.
-From PX.Proofs Require Import C04_reader.
+(* Props/C07.v — property C07: validation is total: any input yields a verdict or a documented refusal.
+   Statements only.  Proofs: Proofs/C07_walker*.v, C07_valid.v, C07_errh.v, C07_zone.v, C07_first_ev.v, C07_text.v,
+   C07_driver.v, C07_driver_maps.v; C04_reader.v, C01_raw.v.
 
-(* The envelope bookkeeping of the reader raises nothing but the documented X12Error, whatever the segments. *)
+   PARTIAL, in two respects.
+   (1) The theorems are about the driver with all sinks off (run_document_gen = x12n_document(param, src, None, None,
+       None); Proofs/Pipeline_off.v shows the whole-pipeline model coincides with it there).  Totality of the HTML / XML /
+       acknowledgement sinks is NOT proved: the check runs the implementation on generated and arbitrary texts under all
+       8 sink subsets and compares it with the whole-pipeline model.
+   (2) Premise plain_delims: the segment terminator and the element separator of the header are not among the letters
+       I, S, A and differ.  Without it the statement is FALSE: C07_letter_terminator_raises (a recorded finding).
+   The context reader's totality is not a theorem either (checked on the implementation). *)
+From Coq Require Import String.
+From PX.Lib Require Import Base PyStr Xml.
+From PX.Gen.Maps Require M_maps.
+From PX.Model Require Import Path Segment Raw Reader MapLoad MapTree Walker Element Driver Pipeline.
+From PX.Spec Require Import C01_spec C07_walker_wf C07_valid_wf C07_spec.
+From PX.Proofs Require Import C04_reader C07_walker C07_valid C07_text C07_driver C07_driver_maps Pipeline_off.
+
+(* The reader's envelope bookkeeping raises nothing but the documented X12Error, whatever the segments. *)
 Theorem C07_reader_steps_total :
   forall dl x segs, match run_steps dl x segs with Ok _ => True | Raise e => e = X12Error end.
 Proof. exact reader_total. Qed.
 Print Assumptions C07_reader_steps_total.
+
+(* The walker never raises on a map satisfying the computable predicate walker_wf, for ANY data segment and state,
+   and returns a segment node of the map or nothing. *)
+Theorem C07_walker_total :
+  forall m w start d sg seg_count cur_line ls_id,
+    walker_wf m = true -> seg_ref m start ->
+    match walk_st m w start d sg seg_count cur_line ls_id with
+    | (_, _, Ok (Some r', _, _)) => seg_ref m r'
+    | (_, _, Ok (None, _, _)) => True
+    | (_, _, Raise e) => False
+    end.
+Proof. exact walker_total. Qed.
+Print Assumptions C07_walker_total.
+
+(* Segment validation never raises on a map satisfying valid_wf, for ANY data segment. *)
+Theorem C07_validation_total :
+  forall m sn d sg, valid_wf m = true -> seg_node_of m sn ->
+    exists b evs, seg_is_valid d (ctx_of m) sn sg = Ok (b, evs).
+Proof. exact validation_total. Qed.
+Print Assumptions C07_validation_total.
+
+(* THE THEOREM: for every environment whose maps satisfy the computable predicate map_ok (or fail to load with
+   EngineError) and EVERY text with plain delimiters, validation returns a verdict or raises X12Error / EngineError. *)
+Theorem C07_driver_total :
+  forall load idx text, env_ok load idx -> plain_delims text = true ->
+    match snd (run_document_gen load idx text) with Ok _ => True | Raise e => allowed e = true end.
+Proof. exact driver_total_plain. Qed.
+Print Assumptions C07_driver_total.
+
+(* The shipped configuration (every map file regenerated from /repo/pyx12/map on this run) is such an environment;
+   277.5010.X212, 820.4010.X061.A1 and 830.4010.PS are not covered (see DESIGN.md) and are absent from shipped_load. *)
+Theorem C07_shipped_environment_ok : env_ok shipped_load shipped_idx.
+Proof. exact shipped_env_ok. Qed.
+Print Assumptions C07_shipped_environment_ok.
+
+Theorem C07_shipped_total :
+  forall text, plain_delims text = true ->
+    match snd (run_document_gen shipped_load shipped_idx text) with Ok _ => True | Raise e => allowed e = true end.
+Proof. exact shipped_total. Qed.
+Print Assumptions C07_shipped_total.
+
+(* the premise is needed: with the letter S as segment terminator the header is accepted, no segment is an ISA,
+   and the interchange error of the IEA finds no interchange node *)
+Theorem C07_letter_terminator_raises :
+  header_ok no_isa_text = true /\ plain_delims no_isa_text = false /\
+  snd (run_document_gen shipped_load shipped_idx no_isa_text) = Raise AttributeError.
+Proof. split; [exact no_isa_header_ok|]. split; [exact no_isa_not_plain | exact no_isa_raises]. Qed.
+Print Assumptions C07_letter_terminator_raises.
+
+(* with all sinks off, the whole-pipeline model IS the driver *)
+Theorem C07_pipeline_off_is_driver :
+  forall load idx clk htime dtd text,
+    run_pipeline_gen load idx clk htime dtd off text =
+    {| o_result := snd (run_document_gen load idx text); o_ack := []; o_html := []; o_xml := [];
+       o_trace := fst (run_document_gen load idx text); o_html_calls := [] |}.
+Proof. exact pipeline_off_is_driver. Qed.
+Print Assumptions C07_pipeline_off_is_driver.
